@@ -371,6 +371,12 @@ func (d *DotGit) NewObjectPack() (*PackWriter, error) {
 	if cleanErr != nil {
 		return nil, cleanErr
 	}
+	if d.options.ExclusiveAccess {
+		// A lookup made while the writer is open regenerates the cached
+		// pack list without the pack being written; forget it again once
+		// the writer is closed, or the new pack would stay invisible.
+		pw.onClose = d.forgetPackList
+	}
 	return pw, nil
 }
 
@@ -805,7 +811,18 @@ func (d *DotGit) DeleteOldObjectPackAndIndex(hash plumbing.Hash, t time.Time) er
 func (d *DotGit) NewObject() (*ObjectWriter, error) {
 	d.cleanObjectList()
 
-	return newObjectWriter(d.fs, d.options.ObjectFormat)
+	ow, err := newObjectWriter(d.fs, d.options.ObjectFormat)
+	if err != nil {
+		return nil, err
+	}
+	if d.options.ExclusiveAccess {
+		// A lookup made while the writer is open regenerates the cached
+		// object list without the object being written; forget it again
+		// once the writer is closed, or the new object would stay
+		// invisible.
+		ow.onClose = d.cleanObjectList
+	}
+	return ow, nil
 }
 
 // ObjectsWithPrefix returns the hashes of objects that have the given prefix.
@@ -988,8 +1005,7 @@ func (d *DotGit) hasObject(h plumbing.Hash) error {
 // The errors are joined and returned so callers can surface them
 // rather than silently masking I/O failures during cleanup.
 func (d *DotGit) cleanPackList() error {
-	d.packMap = nil
-	d.packList = nil
+	d.forgetPackList()
 
 	d.packHandlesMu.Lock()
 	handles := d.packHandles
@@ -1003,6 +1019,13 @@ func (d *DotGit) cleanPackList() error {
 		}
 	}
 	return errors.Join(errs...)
+}
+
+// forgetPackList resets the cached pack catalog only; the cached
+// [packhandle.PackHandle] instances stay valid when packs are merely added.
+func (d *DotGit) forgetPackList() {
+	d.packMap = nil
+	d.packList = nil
 }
 
 func (d *DotGit) genPackList() error {
